@@ -93,19 +93,20 @@ pub fn eval_oods_boundary_poly_at_points<Layout: LayoutTrait>(
     points: &[Felt],
     decommitment: &trace::Decommitment,
     composition_decommitment: &table::types::Decommitment,
-) -> Vec<Felt> {
-    assert!(
+) -> Result<Vec<Felt>, table::decommit::Error> {
+    // The composition table's column count is declared by the proof and checked nowhere else.
+    assure!(
         decommitment.original.values.len() == points.len() * n_original_columns,
-        "Invalid value"
-    );
-    assert!(
+        table::decommit::Error::DecommitmentLength
+    )?;
+    assure!(
         decommitment.interaction.values.len() == points.len() * n_interaction_columns,
-        "Invalid value"
-    );
-    assert!(
+        table::decommit::Error::DecommitmentLength
+    )?;
+    assure!(
         composition_decommitment.values.len() == points.len() * Layout::CONSTRAINT_DEGREE,
-        "Invalid value"
-    );
+        table::decommit::Error::DecommitmentLength
+    )?;
 
     let mut evaluations = Vec::with_capacity(points.len());
 
@@ -137,5 +138,5 @@ pub fn eval_oods_boundary_poly_at_points<Layout: LayoutTrait>(
         ).unwrap());
     }
 
-    evaluations
+    Ok(evaluations)
 }
